@@ -97,25 +97,25 @@ Definition classification : list (site * det_class) := [
   at_ "air/src/preparation_step/preparation.rs" "make_exec_ctx" "iter" 0 (OrderFree "call_results.values().any(..): a disjunction");
   at_ "air/src/runner.rs" "execute_air" "env" 0 (CompileTime "env!(CARGO_PKG_VERSION) in a log line");
   (* ---- interpreter-data ---- *)
-  at_ (idata_dir ++ "cid_info.rs") "verify_service_result_store" "iter" 0 (MessageOnly "which dangling reference the code-8 text names: preparation-error-names-first-culprit");
+  at_ (idata_dir ++ "cid_info.rs") "verify_service_result_store" "iter" 0 (MessageOnly "which dangling reference the code-8 text names: preparation-error-first-culprit-uncovered-sites");
   at_ (idata_dir ++ "cid_info.rs") "verify_canon_result_store" "iter" 0 (MessageOnly "as above");
-  at_ (idata_dir ++ "cid_info.rs") "verify_canon_result_store" "iter" 1 (NotAHash "canon_result.values is a Vec");
+  at_ (idata_dir ++ "cid_info.rs") "verify_canon_result_store" "iter" 1 (MessageOnly "as above (the loop over canon_element_store)");
   at_ (idata_dir ++ "cid_store.rs") "CidStore" "serialize" 0 (AllowedBytes "rkyv AsVec: store entries in hash order inside the encoded data (the property allows it)");
   at_ (idata_dir ++ "cid_store.rs") "CidStore" "decl" 0 LookupOnly;
   at_ (idata_dir ++ "cid_store.rs") "iter" "iter" 0 (OrderFree "accessor; its callers are the cid_info.rs verify_* sites");
-  at_ (idata_dir ++ "cid_store.rs") "verify" "iter" 0 (MessageOnly "which bad value the code-8 text names: preparation-error-names-first-culprit");
-  at_ (idata_dir ++ "cid_store.rs") "verify_raw_value" "iter" 0 (MessageOnly "as above");
+  at_ (idata_dir ++ "cid_store.rs") "verify" "iter" 0 (OrderFree "visited in key order (sorted copy of the entries): Generated.first_culprit_sorted");
+  at_ (idata_dir ++ "cid_store.rs") "verify_raw_value" "iter" 0 (OrderFree "visited in key order (sorted copy of the entries): Generated.first_culprit_sorted");
   at_ (idata_dir ++ "cid_store.rs") "CidTracker" "decl" 0 LookupOnly;
   at_ (idata_dir ++ "cid_store.rs") "from_cid_stores" "iter" 0 (OrderFree "every entry is inserted into the previous map: C20_stores_order");
   at_ (idata_dir ++ "cid_store.rs") "into_iter" "iter" 0 (OrderFree "accessor; its caller is from_cid_stores");
   at_ (idata_dir ++ "executed_state/impls.rs") "fmt" "iter" 0 (NotAHash "FoldResult.lore is a Vec");
   at_ verif_rs "DataVerifier" "decl" 0 LookupOnly;
-  at_ verif_rs "new" "iter" 0 (MessageOnly "which malformed key the code-9 text names (C15: o_new_*)");
+  at_ verif_rs "new" "iter" 0 (MessageOnly "which malformed key the code-9 text names (C15: o_new_*): preparation-error-first-culprit-uncovered-sites");
   at_ verif_rs "new" "decl" 0 LookupOnly;
   at_ verif_rs "new" "iter" 1 (OrderFree "collected into a HashMap by peer id (C15_order)");
   at_ verif_rs "new" "iter" 2 (OrderFree "each peer's list is sorted on its own (C15_order)");
-  at_ verif_rs "verify" "iter" 0 (MessageOnly "which peer the code-9 text names: C15_order (o_verify); preparation-error-names-first-culprit");
-  at_ verif_rs "merge" "iter" 0 (MessageOnly "which peer MergeMismatch names: C15_order (o_merge)");
+  at_ verif_rs "verify" "iter" 0 (OrderFree "visited in peer id order (sorted copy of the entries): Generated.first_culprit_sorted; verdict: C15_order (o_verify)");
+  at_ verif_rs "merge" "iter" 0 (MessageOnly "which peer MergeMismatch names: C15_order (o_merge); preparation-error-first-culprit-uncovered-sites");
   at_ verif_rs "merge" "iter" 1 (OrderFree "put into the SignatureStore map: C15_order (o_store)");
   at_ verif_rs "collect_peers_cids_from_trace" "decl" 0 LookupOnly;
   at_ verif_rs "try_push_cid" "decl" 0 LookupOnly;
@@ -166,6 +166,13 @@ Definition catalogue_closed : bool :=
 Definition no_external_sources : bool :=
   forallb (fun s => let '(_, _, k, _) := s in
                     negb (String.eqb k "clock" || String.eqb k "rand" || String.eqb k "addr")%string) det_sites.
+(* the verification loops whose error names a culprit visit their map in key order (read from the source) *)
+Definition first_culprit_fixed : bool :=
+  list_eqb (fun a b => String.eqb (fst a) (fst b) && Bool.eqb (snd a) (snd b)) first_culprit_sorted
+           [("DataVerifier::verify", true); ("CidStore::verify", true); ("CidStore::verify_raw_value", true)]%string.
+(* the sites that still name the culprit met first in hash order (message only) *)
+Definition message_only_sites : list site :=
+  flat_map (fun e => match snd e with MessageOnly _ => [fst e] | _ => [] end) classification.
 (* the findings named by the classification *)
 Definition classified_findings : list string :=
   flat_map (fun e => match snd e with KnownFinding k => [k] | _ => [] end) classification.
